@@ -46,7 +46,7 @@ def run(ctx):
     ctx.rules.append("strings over {I,X,Y,Z}^n with all phases: exhaustive n=1 pairs, all n=2 letter pairs, random n<=%d; "
                      "operator insertion/removal histories; parse of printed and malformed strings; raw constructor data. "
                      "non-trivial = distinct case whose strings are not all identity strings" % (12 if ctx.thorough else 8))
-    ctx.lib()
+    ctx.lib(["Pauli/PauliCheck", "Pauli/PauliProofs2"])
     ctx.translate("GenPauli", gen_pauli.generate)
     if not any(o["name"] == "translator:GenPauli" and not o["ok"] for o in ctx.obligations):
         ctx.props()
